@@ -163,6 +163,22 @@ def run_case(case, o: Oracle) -> None:
         return
     want_scheme = {"v1": "rsa", "v21": "ecc", "vx": "vx"}.get(G.cert_kind(cls)) or ("bca_crc" if info["bca_crc"] else "crc")
     o.eq("rom_accepts", "scheme", rep.get("scheme"), want_scheme)
+    # an image object made through the constructor with the same members, the counter IV left out (the API's default): the ROM
+    # model must be able to decrypt it with the IV the image carries
+    if "_ctr_init_vector" in vars(obj) or hasattr(type(obj), "_ctr_init_vector"):
+        img_api = None
+        with o.spsdk("api_default_iv"):
+            twin = type(obj)(**{k: v for k, v in vars(obj).items() if k != "_ctr_init_vector"})
+            img_api = bytes(twin.export_image().export())
+        if img_api is not None:
+            try:
+                rep_api = mbi_rom.check(img_api, info, b.user_key)
+                o.eq("api_default_iv", "length", len(img_api), len(img))
+                if "body" in rep and "body" in rep_api:
+                    o.check("api_default_iv", rep_api["body"] == rep["body"], "decrypted_body", first_diff(rep_api["body"], rep["body"]))
+            except mbi_rom.Reject as exc:
+                o.fail("api_default_iv", exc.code, "image of an object constructed without a counter IV: " + str(exc))
+            o.label("api_default_iv")
     # the same object exported once more gives an equally acceptable image (byte-identical where nothing random goes in)
     img2 = None
     with o.spsdk("export_again"):
